@@ -46,7 +46,7 @@ def generate(seed, tier):
             c["timeout"] = 40 if tier == "quick" else 60
         elif tier == "quick":
             c["timeout"] = 30
-    return CF.order_cases(cases, cli)
+    return CF.order_cases(cases, cli, tier)
 
 
 def worker_init(tier):
